@@ -11,7 +11,7 @@ import procs
 from procs import Session, enc_bytes, enc_strlist
 
 PIECES = ['a', 'b c', "'", '"', '$HOME', '$(echo x)', '`id`', '\\', '\n', '*', '?', '[a]', ';', '&', '|', '>', '~', '!', '#', '{x,y}', 'é', '  ', '\t',
-          "''", "'\\''", '-n', '%s', '=']
+          "''", "'\\''", '-n', '%s', '=', '{}', '{+}', '{1}', '{q}', '{n}', '\\{}', '{+1}']
 PHS = ['{}', '{q}', '{+}', '{n}', '{+n}', '{1}', '{-1}', '{2..}', '{+1}', '{..2}', '{+2}', '{1..2}', '{+1..2}', '{}', '{+}', '{q}']
 WORDS = ['echo', '--opt', 'x/y.z', 'A_1', '-']
 
